@@ -20,6 +20,8 @@ SPEC = {
         'ext_rdDExp', 'ext_rdSExp', 'ext_rdDModel', 'ext_rdSModel', 'ext_rdPD', 'ext_rdPS', 'ext_rdMPol', 'polLoop_mono', 'ext_polLoop', 'ext_rdPPol',
         'strict_prefix_fails', 'truncated_load_rejected', 'truncated_rejected_dexp', 'truncated_rejected_sexp', 'truncated_rejected_dmodel',
         'truncated_rejected_smodel', 'truncated_rejected_mpol', 'truncated_rejected_ppol', 'truncated_rejected_pd', 'truncated_rejected_ps',
+        # bytes <-> tokens: any white-space layout tokenizes back to the token list; byte-level round trip
+        'tokenize_render', 'roundtrip_bytes', 'printN_clean',
         # the fuel of the policy loop is immaterial (the model is the unbounded while(true))
         'dec_rdEntry', 'polLoop_fuel_step', 'rdPPol_fuel_free', 'ratIO_scanShrinks',
         # tied to the source through Gen/IOPrec
